@@ -80,6 +80,8 @@ rec("correlation_extended", lambda: conv(None, XCORR, V.K(correlation={"typing":
 rec("error_corr_unknown_keys", lambda: SigmaCollection.from_dicts([{"title": "c", "correlation": {"type": "event_count", "rules": ["x"], "timespan": "5m", "condition": {"gte": 1, "zeta": 1, "alpha": 2, "beta": 3}}}]))
 rec("error_pipeline_unreferenced", lambda: ProcessingPipeline.from_dict({"name": "e", "priority": 1, "transformations": [{"type": "field_name_suffix", "suffix": "x", "rule_conditions": {
     "c_zeta": {"type": "is_sigma_rule"}, "c_alpha": {"type": "is_sigma_rule"}, "c_beta": {"type": "is_sigma_rule"}, "used": {"type": "is_sigma_rule"}}, "rule_cond_expr": "used"}]}))
+rec("error_pipeline_unknown_keys", lambda: ProcessingPipeline.from_dict({"name": "e", "priority": 1, "zeta": 1, "alpha": 2, "beta": 3, "transformations": []}))
+rec("error_pipeline_item_unknown_keys", lambda: ProcessingPipeline.from_dict({"name": "e", "priority": 1, "transformations": [{"type": "field_name_suffix", "suffix": "x", "zeta": 1, "alpha": 2, "beta": 3}]}))
 rec("error_collect", lambda: conv(P_MAP, [rule({"sel": {"f1|expand": "%nope%"}}), rule({"sel": {"f1|cased": "A"}}), rule({"sel": {"f1": "a"}}, "sel and missing")], V.K(templates=frozenset(V.ALL_TEMPLATES) - {"cs"})))
 rec("error_load_collect", lambda: [[type(e).__name__ + ":" + str(e) for e in SigmaCollection.from_dicts([{"title": 5, "id": "x", "level": "nope", "status": [], "tags": ["bad tag"], "detection": {"sel": {"f|contains": None}, "condition": "sel"}}], collect_errors=True).errors]])
 P_STRICT = {"name": "s", "priority": 1, "transformations": [{"id": "m", "type": "field_name_mapping", "mapping": {"f1": "g1"}}, {"id": "strict", "type": "strict_field_mapping_failure"}]}
